@@ -68,6 +68,31 @@ pub fn shapes(thorough: bool) -> Vec<Shape> {
     v
 }
 
+/// the same program through `blots -e`, the program arriving on standard input
+fn run_cli_stdin(cli: &str, prog: &str) -> (Option<i32>, String, String) {
+    use std::io::Write;
+    let child = Command::new("sh")
+        .arg("-c")
+        .arg("ulimit -s 8192; exec timeout 60 \"$0\" -e")
+        .arg(cli)
+        .stdin(Stdio::piped()).stdout(Stdio::piped()).stderr(Stdio::piped())
+        .spawn();
+    match child {
+        Ok(mut c) => {
+            let _ = c.stdin.take().unwrap().write_all(prog.as_bytes());
+            match c.wait_with_output() {
+                Ok(o) => {
+                    use std::os::unix::process::ExitStatusExt;
+                    let code = o.status.code().or_else(|| o.status.signal().map(|s| 128 + s));
+                    (code, String::from_utf8_lossy(&o.stdout).to_string(), String::from_utf8_lossy(&o.stderr).to_string())
+                }
+                Err(e) => (None, String::new(), format!("wait: {e}")),
+            }
+        }
+        Err(e) => (None, String::new(), format!("spawn: {e}")),
+    }
+}
+
 fn run_cli(cli: &str, prog: &str) -> (Option<i32>, String, String) {
     // default main-thread stack of 8 MiB, whatever the calling shell has
     let o = Command::new("sh")
@@ -145,10 +170,14 @@ pub fn record(cli: &str, thorough: bool) -> Vec<J> {
         let (rc, rout, rerr) = run_cli(cli, &sh.runaway);
         let (fc, fout, _ferr) = run_cli(cli, &sh.finite);
         let finite_ok = fc == Some(0) && fout.trim() == format!("{{\"r\":{}}}", sh.finite_value);
+        let (ec, eout, eerr) = run_cli_stdin(cli, &sh.runaway);
+        let (efc, efout, _) = run_cli_stdin(cli, &sh.finite);
         out.push(json!({"ev":"shape","shape":sh.name,"inc":sh.inc,"measure":m,
             "runaway": {"exit": rc, "depth_error": rout.contains("maximum call depth") || rerr.contains("maximum call depth"),
                         "report": format!("{} {}", rout.chars().take(160).collect::<String>(), rerr.chars().take(160).collect::<String>())},
             "finite": {"exit": fc, "ok": finite_ok, "stdout": fout.chars().take(80).collect::<String>()},
+            "stdin_mode": {"runaway_exit": ec, "runaway_depth_error": eout.contains("maximum call depth") || eerr.contains("maximum call depth"),
+                           "finite_exit": efc, "finite_ok": efc == Some(0) && efout.trim() == format!("{{\"r\":{}}}", sh.finite_value)},
             "runaway_src": sh.runaway, "finite_src": sh.finite}));
     }
     out
